@@ -117,9 +117,13 @@ class DatasetStub:
         if name == 'variables':
             return VarMap(self)
         if name == 'data_vars':
-            return [k for k, v in self.variables.items() if k not in self.dims and not getattr(v, 'is_coord', False)]
+            # library fact: Dataset.data_vars is a mapping name -> DataArray (iterating it gives the names)
+            return DataVarsMap(self)
         if name == 'dims':
             return self.dims
+        if name == 'sizes':
+            # mapping dimension -> length; only membership / iteration over the names is modelled (lengths are not part of the scenario)
+            return DimNames(self.dims)
         if name == 'close':
             return PyCallable(lambda it, a, k, n: setattr(self, 'closed', True), 'close')
         if name == 'filter_by_attrs':
@@ -156,6 +160,62 @@ class VarMap:
 
     def abs_iter(self):
         return list(self.ds.variables)
+
+
+class DataVarsMap(VarMap):
+    """ds.data_vars: the variables that are not coordinates"""
+    def names(self):
+        return [k for k, v in self.ds.variables.items() if k not in self.ds.dims and not getattr(v, 'is_coord', False)]
+
+    def abs_contains(self, item):
+        return item in self.names()
+
+    def abs_getitem(self, interp, key, node):
+        if key not in self.names():
+            raise AbsRaise(ExcVal('KeyError', (key,)), node)
+        return self.ds.abs_getitem(interp, key, node)
+
+    def abs_iter(self):
+        return self.names()
+
+    def abs_len(self):
+        return len(self.names())
+
+    def abs_getattr(self, interp, name, node):
+        if name == 'keys':
+            return PyCallable(lambda it, a, k, n: self.names(), 'data_vars.keys')
+        if name == 'values':
+            return PyCallable(lambda it, a, k, n: [self.ds.variables[x] for x in self.names()], 'data_vars.values')
+        if name == 'items':
+            return PyCallable(lambda it, a, k, n: [(x, self.ds.variables[x]) for x in self.names()], 'data_vars.items')
+        if name == 'get':
+            def get(it, a, k, n):
+                return self.ds.variables[a[0]] if a[0] in self.names() else (a[1] if len(a) > 1 else k.get('default'))
+            return PyCallable(get, 'data_vars.get')
+        raise AnalysisError(f'Dataset.data_vars.{name} not modelled', node)
+
+
+class DimNames:
+    """ds.sizes: only the dimension names are part of the scenarios"""
+    def __init__(self, dims):
+        self.dims = tuple(dims)
+
+    def abs_contains(self, item):
+        return item in self.dims
+
+    def abs_iter(self):
+        return list(self.dims)
+
+    def abs_len(self):
+        return len(self.dims)
+
+    def abs_getattr(self, interp, name, node):
+        if name == 'keys':
+            return PyCallable(lambda it, a, k, n: list(self.dims), 'sizes.keys')
+        raise AnalysisError(f'Dataset.sizes.{name} (dimension lengths) not modelled', node)
+
+    def abs_getitem(self, interp, key, node):
+        raise AnalysisError('Dataset.sizes[dim] (dimension lengths) not modelled', node)
 
 
 class Geometry:
